@@ -252,4 +252,18 @@ def writeChromXF (cfg : Cfg) : Option Nat → List Record → List Out
 def writeFile (groups : List (String × Cfg × List Record)) : List (String × List Record) :=
   groups.map fun (chrom, cfg, rs) => (chrom, outRecords (writeChromX true cfg none rs))
 
+/-- the value `prev_pos` has when `write` returns -/
+def lastPrev : Option Nat → List Out → Option Nat
+  | prev, [] => prev
+  | _, o :: os => lastPrev o.prev os
+
+/-- NOT the code — a yard-stick: a chromosome loop in which the duplicate-position state of `write` (`prev_pos`, a local
+    variable of `write` in the code) survives the end of the call, e.g. as an attribute of the writer object.  The first
+    record to be phased on a chromosome is then taken for a duplicate when the record phased last on the chromosome
+    before has the same POS (`carried_prev_pos_witness`); `writeFile` is what the code does. -/
+def writeFileCarry : Option Nat → List (String × Cfg × List Record) → List (String × List Record)
+  | _, [] => []
+  | prev, (chrom, cfg, rs) :: gs =>
+    (chrom, outRecords (writeChromX true cfg prev rs)) :: writeFileCarry (lastPrev prev (writeChromX true cfg prev rs)) gs
+
 end WhVerif.C09
